@@ -567,6 +567,7 @@ fn execute(sc: &Scenario, keep: bool) -> (Report, Option<Outcome>) {
             });
         }
     }
+    probes.inc(if sc.guarded { "generated_guarded" } else { "generated_unguarded" });
     let mut rep = Report::from_log(sh.log.take());
     rep.violation = violation;
     rep.harness_error = harness_error;
